@@ -209,6 +209,33 @@ def one_case(rng, res, intern, stream, root, label):
     res.samples.append({"kind": kind, "root": repr(root)[:400], "edits": edits})
 
 
+_SHARED_DEFAULT = [0]
+
+
+def fm7(sizes=[], table={"k": 1}, shared=_SHARED_DEFAULT, other=None):   # pylint: disable=dangerous-default-value
+  return l2._rec("fm7", locals())  # pylint: disable=protected-access
+
+
+def default_object_root(rng):
+  """Arguments that ARE the callable's own (mutable) default objects - what materialize_defaults or
+  `cfg.x = cfg.x` leave behind - with further references to them from other containers."""
+  kind = rng.choice([fdl.Config, fdl.Partial])
+  inner = kind(fm7)
+  names = rng.sample(["sizes", "table", "shared"], rng.randint(1, 3))
+  for nm in names:
+    setattr(inner, nm, getattr(inner, nm))         # the default object itself, now an explicit argument
+  held = inner.__arguments__[names[0]]
+  shape = rng.randrange(4)
+  if shape == 0:
+    return inner
+  if shape == 1:
+    return fdl.Config(l2.fd, x=[inner], y={"again": held})
+  if shape == 2:
+    inner.other = [held]
+    return fdl.Config(l2.fa, inner, b=(held, [inner]))
+  return fdl.Config(l2.fd, x=inner, y=kind(fm7, sizes=held))
+
+
 def run(tier: str, seed: int) -> Result:
   rng = random.Random(seed * 67867967 + 7)
   res = Result()
@@ -236,4 +263,7 @@ def run(tier: str, seed: int) -> Result:
       from harness import c14
       c14.tag_positional(rng, root)    # tags on positional (index) arguments, set or not, and on **kwargs entries
     one_case(rng, res, intern, stream, root, f"cfg#{i}")
+  for i in range(40 if tier == "quick" else 600):
+    res.count("default-object-root")
+    one_case(rng, res, intern, stream, default_object_root(rng), f"default-object#{i}")
   return res
